@@ -7,6 +7,7 @@ CONSTANTS
   UserCancels = FALSE
   EagerUser = TRUE
   ResubFlags = {}
+  MaxResub = 1
   Log = TRUE
   FaultKinds = {}
   MaxFaults = 0
